@@ -17,7 +17,7 @@ func init() {
 		RealParts:  []string{"Population.speciate, createFirstSpecies, Genome.compatibility (both methods)", "NewPopulation, NewPopulationRandom, ReadPopulation, both epoch executors"},
 		StubParts:  []string{"fitness assignment", "goroutine choice in parallel worlds"},
 		Assumes:    []string{"'closest' is judged with the reference NEAT distance (C07's formula); ties and distances within 1e-9 (relative) of the threshold or of each other accept either outcome"},
-		ProbeNames: []string{"probe.joined_nearest_of_several", "probe.founded_mid_batch", "probe.joined_species_founded_in_same_batch", "probe.direct_permuted_batch", "probe.construction_speciation", "probe.readback_speciation", "probe.random_world", "probe.method.linear", "probe.method.fast"},
+		ProbeNames: []string{"probe.joined_nearest_of_several", "probe.founded_mid_batch", "probe.joined_species_founded_in_same_batch", "probe.direct_permuted_batch", "probe.construction_speciation", "probe.readback_speciation", "probe.random_world", "probe.method.linear", "probe.method.fast", "probe.distance_equals_threshold"},
 	})
 }
 
@@ -26,16 +26,19 @@ func checkSpeciation(c *RunCtx, opts *neat.Options, ss *SpeciateSnap, where stri
 	type cand struct {
 		sp  *genetics.Species
 		rep *GenomeRec
+		g   *genetics.Genome
 	}
 	var cands []cand
 	inList := map[*genetics.Species]int{}
 	for i, sp := range ss.Species {
 		inList[sp] = len(cands)
 		var r *GenomeRec
+		var rg *genetics.Genome
 		if ss.Reps[i] != nil {
-			r = Canon(ss.Reps[i].Genotype)
+			rg = ss.Reps[i].Genotype
+			r = Canon(rg)
 		}
-		cands = append(cands, cand{sp, r})
+		cands = append(cands, cand{sp, r, rg})
 		idLedger[sp.Id] = true
 		if sp.Id > *maxIdSeen {
 			*maxIdSeen = sp.Id
@@ -62,6 +65,9 @@ func checkSpeciation(c *RunCtx, opts *neat.Options, ss *SpeciateSnap, where stri
 			}
 			d, _, _, _ := RefCompat(rec, cd.rep, opts.DisjointCoeff, opts.ExcessCoeff, opts.MutdiffCoeff)
 			dists[j] = d
+			if d == thr {
+				c.Count("probe.distance_equals_threshold")
+			}
 			if d < thr {
 				under++
 				if d < best {
@@ -83,6 +89,15 @@ func checkSpeciation(c *RunCtx, opts *neat.Options, ss *SpeciateSnap, where stri
 			d := dists[j]
 			if !(d < thr+tol(thr)) {
 				c.Fail("joined-incompatible", "organism was put into species %d whose representative is at distance %.9g, not under the threshold\n%s", actual.Id, d, ctx())
+			}
+			if d == thr && cands[j].g != nil {
+				// the reference distance equals the threshold exactly: "closer than" is strict, provided the library's own
+				// distance is exactly the threshold too (otherwise rounding decides and either outcome is accepted)
+				var dl float64
+				c.Lib("compatibility", func() { dl = genetics.VerifCompatibility(org.Genotype, cands[j].g, opts) })
+				if dl == thr {
+					c.Fail("joined-at-threshold", "organism was put into species %d whose representative is at distance exactly %.17g = the threshold: it is not closer than the threshold, a new species had to be founded (or a closer one chosen)\n%s", actual.Id, d, ctx())
+				}
 			}
 			if d > best+tol(best) && under > 0 {
 				c.Fail("not-nearest", "organism was put into species %d (distance %.9g) although a representative at distance %.9g is closer\n%s", actual.Id, d, best, ctx())
@@ -109,7 +124,7 @@ func checkSpeciation(c *RunCtx, opts *neat.Options, ss *SpeciateSnap, where stri
 			idLedger[actual.Id] = true
 			*maxIdSeen = actual.Id
 			inList[actual] = len(cands)
-			cands = append(cands, cand{actual, rec})
+			cands = append(cands, cand{actual, rec, org.Genotype})
 			foundedHere[actual] = true
 			if k > 0 {
 				c.Count("probe.founded_mid_batch")
@@ -143,7 +158,7 @@ func scenarioC08(c *RunCtx) {
 		maxPop, maxEpochs = 60, 30
 	}
 	spec := WorldSpec{
-		Prof:         OptProfile{MinPop: 3, MaxPop: maxPop, Parallel: 2, Structural: 1, ManySpecies: t.Chance("manySpecies", 2, 3), AllowStolen: true},
+		Prof:         OptProfile{MinPop: 3, MaxPop: maxPop, Parallel: 2, Structural: 1, ManySpecies: t.Chance("manySpecies", 2, 3), AllowStolen: true, IntegralCompat: true},
 		Genome:       GenomeSpec{AllowDisabled: true, MaxHidden: 3},
 		AllowShipped: true,
 		AllowRandom:  true,
